@@ -89,6 +89,24 @@ func NewTermTable() *TermTable {
 	return tt
 }
 
+// Size is the number of hash-consed terms.
+func (tt *TermTable) Size() int { return len(tt.tab) }
+
+// Trim forgets every composite term (constants and variables stay, so that
+// values created once - package initialisation, caches - keep their identity).
+// Only called between two paths, when no composite term is live; ids are never
+// reused, so a stale composite term that is still referenced somewhere stays a
+// valid (merely no longer shared) term.
+func (tt *TermTable) Trim() {
+	keep := make(map[termKey]*Term, 1<<12)
+	for k, t := range tt.tab {
+		if t.op == OpConst || t.op == OpVar {
+			keep[k] = t
+		}
+	}
+	tt.tab = keep
+}
+
 func tid(t *Term) int {
 	if t == nil {
 		return -1
